@@ -299,6 +299,7 @@ def main():
     ap.add_argument("--seed", type=int, default=0)
     ap.add_argument("--replay-dir", default=None)
     ap.add_argument("--repo", default="/repo")
+    ap.add_argument("--replay-json", default=None, help="replay the witnesses of a counterexample file written by an earlier run against the real crate")
     a = ap.parse_args()
     t0 = time.time()
     import symex as _sx
@@ -308,6 +309,22 @@ def main():
     import harnesses_text  # noqa: F401  (registers the C15/C19 harnesses)
     import harnesses_pkg  # noqa: F401
     import harnesses_build  # noqa: F401
+    if a.replay_json:
+        # replay only: no symbolic execution, the stored witnesses go to the native helper (or become an in-crate test for the driver)
+        doc = json.load(open(a.replay_json))
+        ctx = Ctx({}, Native(a.native), a.seed)
+        ctx.hname = doc.get("harness", a.harness)
+        rp = REPLAYERS[ctx.hname.split("_")[0]]
+        out = {"harness": ctx.hname, "reproduced": False, "why": [], "incrate": None}
+        for fl in doc.get("witnesses", []):
+            r = rp(ctx, fl)
+            out["reproduced"] = out["reproduced"] or bool(r[0])
+            out["why"].append(r[1])
+            if len(r) > 2 and r[2] and out["incrate"] is None:
+                out["incrate"] = r[2]
+        json.dump(out, open(a.out, "w"), indent=1)
+        print(ctx.hname, "REPLAY", "reproduced" if out["reproduced"] else "not reproduced")
+        return
     try:
         funcs = mir.parse_mir(open(a.mir).read())
         ctx = Ctx(funcs, Native(a.native), a.seed)
